@@ -1,6 +1,7 @@
 package syncx
 
 import (
+	"encoding/hex"
 	"encoding/json"
 	"fmt"
 	"io"
@@ -115,6 +116,7 @@ type Event struct {
 	Ok      bool                   `json:"ok"`
 	Repeat  map[string]interface{} `json:"repeat"`
 	Note    string                 `json:"note"`
+	probe   *Event                 // a second event of the same scenario (merge of a shallow commit), emitted after this one
 }
 
 func parList(par map[int][]int) [][]interface{} {
@@ -409,6 +411,9 @@ func Run(sc *Scenario) (string, interface{}, *Event, error) {
 	}
 	closeFn()
 	ev.Repeat = map[string]interface{}{"changed": !reflect.DeepEqual(again, after), "transferred": transferred}
+	if fetch && sc.Depth > 0 && again != nil {
+		ev.probe = probeShallowMerge(r, u, par, again, i0(sc))
+	}
 	// (B): the receiver's refs must be the specification's
 	want := refPairs(sc.Refs)
 	got := sideRefs(after)
@@ -436,6 +441,62 @@ func Run(sc *Scenario) (string, interface{}, *Event, error) {
 		return "command-failed", detail, ev, nil
 	}
 	return "", nil, ev, nil
+}
+
+func i0(sc *Scenario) int { return len(sc.Specs) + sc.Depth }
+
+// probeShallowMerge: a depth-limited fetch leaves commits without their tables.  If one of them descends from
+// a local branch, `wrgl merge BRANCH <its hash>` (fast-forward, then --no-ff) is tried: whatever the command
+// answers, the result is one more transition of the repository that TraceSync judges like a fetch of depth 1 -
+// a ref that moved must point at a commit that has its table (Sync!HistoryComplete).
+func probeShallowMerge(r *cli.Repo, u *Universe, par map[int][]int, st *Side, variant int) *Event {
+	full := map[int]bool{}
+	for _, c := range st.Tables {
+		full[c] = true
+	}
+	var shallow []int
+	for _, c := range st.Commits {
+		if c != 99 && !full[c] {
+			shallow = append(shallow, c)
+		}
+	}
+	for _, rf := range st.Refs {
+		name, _ := rf[0].(string)
+		head, _ := rf[1].(int)
+		if !strings.HasPrefix(name, "heads/") || !full[head] {
+			continue
+		}
+		for _, s := range shallow {
+			isAnc := false
+			for _, a := range u.Closure([]int{s}) {
+				if a == head && s != head {
+					isAnc = true
+				}
+			}
+			if !isAnc {
+				continue
+			}
+			args := []string{"merge", strings.TrimPrefix(name, "heads/"), hex.EncodeToString(u.Sum[s])}
+			if variant%2 == 1 {
+				args = append(args, "--no-ff")
+			}
+			_, runErr := r.Run(nil, args...)
+			cdb, crs, closeFn, err := r.Open()
+			if err != nil {
+				return nil
+			}
+			after, err := u.Project(cdb, crs)
+			logs := newestLogs(u, crs, sideRefs(st), sideRefs(after))
+			closeFn()
+			if err != nil {
+				return nil
+			}
+			return &Event{Op: "sync", Kind: "merge-shallow", Par: parList(par), Before: st, After: after, Sender: st, Forced: []string{},
+				Depth: 1, Logs: logs, Differs: 0, Ok: runErr == nil,
+				Repeat: map[string]interface{}{"changed": false, "transferred": 0}, Note: strings.Join(args, " ")}
+		}
+	}
+	return nil
 }
 
 // reportsRefusal: "reported" is judged by the output saying so in ANY of the usual words (the exact
@@ -484,6 +545,9 @@ func Replay(i int, raw []byte) child.Result {
 	}
 	if ev != nil {
 		child.EmitBatch("sync", []interface{}{map[string]interface{}{"op": "reset"}, ev})
+		if ev.probe != nil {
+			child.EmitBatch("sync", []interface{}{map[string]interface{}{"op": "reset"}, ev.probe})
+		}
 	}
 	if kind != "" {
 		return child.Fail("sync/"+sc.Op+"/"+kind, detail)
